@@ -232,6 +232,12 @@ class C11(World):
         probs = []
         for _ in range(swarm["n_problems"]):
             x = pr.random()
+            if os.environ.get("C11_HP") and pr.random() < 0.5:
+                # development knob: many heat-pump-targeting problems (slow calls that fail deep inside the pipeline)
+                p = problems.generate(pr, small=True, max_streams=4)
+                p["options"] = {pr.choice(["DO_PROCESS_HP_TARGETING", "DO_UTILITY_HP_TARGETING"]): True}
+                probs.append(dict(src="invalid:hp_targeting", data=p))
+                continue
             if x < swarm["p_invalid"]:
                 kind = pr.choice(["no_streams", "utility_zone_tree", "area_unbalanced", "indirect_process"] + (["hp_targeting"] if pr.random() < (0.2 if self.tier == "thorough" else 0.02) else []))
                 if kind == "no_streams":
